@@ -257,7 +257,7 @@ def segmentLoop (version : Int) : (fuel : Nat) → Buffer → Array Segment → 
 def RS_SYNDROMES (cap : Gen.GCap) : Int := cap.correction
 
 /-- whether the decoder unmasks a private copy (repaired source) or the caller's pixels (pinned source) -/
-def DECODE_CLONES : Bool := false
+def DECODE_CLONES : Bool := true
 
 /-- Go: `DecodeBitmap`; also returns the caller's bitmap as it is after the call -/
 def decodeBitmapFull (img0 : Image) : Out (QRCode × Image) := do
